@@ -50,7 +50,19 @@ Meta == (\E c \in 1..NB : c <= NCells /\ Isolate(c)) \/ (\E b1, b2 \in 1..NB : b
 Init == /\ parents = <<0>> /\ ncomp = <<1>> /\ blab = <<1>>
         /\ pc = "Choose" /\ lvl = 0 /\ st = [deg |-> FALSE]
         /\ phase = "first" /\ prev = <<>>
-Next == ChooseConfig \/ (HinesNext /\ UNCHANGED <<phase, prev>>) \/ Meta
+\* one named disjunct per solver phase (TLC attributes coverage to the named disjuncts of Next)
+Keep == UNCHANGED <<phase, prev>>
+SAssemble == Assemble /\ Keep
+STriangLevel == TriangLevel /\ Keep
+SElimChildrenLower == ElimChildrenLower /\ Keep
+SElimParentsUpper == ElimParentsUpper /\ Keep
+STriangRoot == TriangRoot /\ Keep
+SBacksubRoot == BacksubRoot /\ Keep
+SElimParentsLower == ElimParentsLower /\ Keep
+SElimChildrenUpper == ElimChildrenUpper /\ Keep
+SBacksubLevel == BacksubLevel /\ Keep
+Next == ChooseConfig \/ SAssemble \/ STriangLevel \/ SElimChildrenLower \/ SElimParentsUpper \/ STriangRoot \/ SBacksubRoot
+        \/ SElimParentsLower \/ SElimChildrenUpper \/ SBacksubLevel \/ Meta
 Spec == Init /\ [][Next]_<<hvars, phase, prev>>
 \* C12: a cell inside a network without synapses behaves exactly like the cell alone; listing sibling
 \* branches in a different order permutes the solution and changes nothing else
